@@ -32,6 +32,10 @@ def step_of(state_text, label):
         return {"a": "aclose", "c": int(args[0])}
     if name == "NewSubConn":
         return {"a": "newsc", "c": int(args[0])}
+    if name == "NewSubConnBegin":
+        return {"a": "newsc_begin", "c": int(args[0])}
+    if name == "NewSubConnEnd":
+        return {"a": "newsc_end"}
     if name == "ChildUpdate":
         q = parse_tla_state(state_text, only={"closing"})["closing"]
         return {"a": "update", "c": int(args[0]), "s": args[1], "q": q}
